@@ -104,8 +104,8 @@ def _e2e_case(args):
 
 def _e2e_freq(stype, ic, tm, eqs, nsamp, fv, jf, hist, tvec, s, Q, N, nz, T):
     wn = 2 * sp.pi * fv
-    z, _ = SC.ramp_response(False)
-    Y = SC.output(stype, z, False)
+    z, _ = SC.ramp_response(fv == 0)
+    Y = SC.output(stype, z, fv == 0)
     sub = {SC.w: wn, SC.T: T}
     Yat = lambda x: Y.subs(SC.t, x).subs(sub)
 
@@ -119,7 +119,7 @@ def _e2e_freq(stype, ic, tm, eqs, nsamp, fv, jf, hist, tvec, s, Q, N, nz, T):
             r += Yat((n - 1) * T)
         return r / T
 
-    steady = {"reldisp": -1 / wn ** 2, "pvelo": -1 / wn, "pacce": -1, "absacce": 1, "relacce": 0, "relvelo": 0}[stype]
+    steady = {"reldisp": (-1 / wn ** 2 if fv else 0), "pvelo": (-1 / wn if fv else 0), "pacce": -1, "absacce": 1, "relacce": 0, "relvelo": 0}[stype]
     shift = {"zero": 0, "shift": s[0], "mshift": (s[0] + s[1]) / 2, "steady": s[0]}[ic]
     x = [s[0] - shift, s[1] - shift]
     total = N + nz if tm != "primary" else N
@@ -198,6 +198,7 @@ def run(tier, seed):
                 fails.append(dict(case=dict(stype=args[0], ic=args[1], time=args[2], eqsine=args[3]), item=lab, detail=det))
             elif st == "undecided":
                 und.append((args, lab))
+                run.undecided.append("bounded e2e %s %s: %s" % (args[:4], lab, det))
     nsel, sel_fails = selectors(mod)
     run.bounded.append(dict(name="real srs.srs (serial arm, getresp=True) run on a symbolic 2-sample record, one column, sr=4, f=1 Hz: "
                                  "resp['hist'] and resp['t'] against the exact response under each ic rule and time window",
